@@ -86,6 +86,11 @@ ConnUpdate(v, w) ==
           /\ cadv' = v /\ cwin' = w
   /\ UNCHANGED <<hi, read, adv, win, finalKnown, chi, cread, sent, slim, sblockedAt, csent, cslim, cblockedAt, err>>
 
+\* what a frame's handler answered (res) must be what the accounting did with it: an accepted frame has been counted
+\* (a frame that is dropped before it is counted escapes the limits), a refused one left the recorded error
+Accounted(s, off, fin, res) ==
+  IF res = "ok" THEN hi[s] >= off /\ (fin => finalKnown[s]) ELSE err = res
+
 ----------------------------------------------------------------------------
 (* Send side *)
 SendWindow(s) == Min(Max(0, slim[s] - sent[s]), Max(0, cslim - csent))
